@@ -1,2 +1,228 @@
-/- Property theorems for C17 (placeholder until the proofs land). -/
-import Avt.Spec.C17
+/-
+  Avt.Props.C17 — save/restore cursor round-trips the full context, per screen.
+
+  Specification: `Avt.Spec.C17` (`ctxOf`, `defaultCtx`, `clampCtx`, `stepOK`, `touchesCtx`, …).
+  Helpers: Avt/Lemmas/C17Frame.lean, Avt/Lemmas/C17Step.lean.  All statements are unbounded (every
+  terminal state, every size, every `Function`).
+-/
+import Avt.Lemmas.C17Step
+
+namespace Avt.Props.C17
+open Avt Avt.Spec.C17
+
+/-- the four spellings of a save that does nothing else -/
+def IsPlainSave (f : Function) : Prop :=
+  f = .decsc ∨ f = .scosc ∨ f = .decset [.saveCursor]
+
+/-- the restores that do nothing else -/
+def IsPlainRestore (f : Function) : Prop :=
+  f = .decrc ∨ f = .scorc ∨ f = .decrst [.saveCursor]
+
+/-- **Per-step specification** (all three clauses, every constructor of `Function`): whatever the
+    model does in one function is what `stepOK` — the predicate the oracle evaluates on the
+    implementation — allows. -/
+theorem C17_step {t t' : Terminal} {f : Function} (hi : TInv t = true) (h : t.execute f = some t') :
+    stepOK t f t' = true := step_ok hi h
+
+/-- **Clause 1.**  A save records (min col (cols-1), row, pen, origin, auto-wrap) of the current
+    state in the active context and changes nothing else. -/
+theorem C17_save {t t' : Terminal} {f : Function} (hf : IsPlainSave f) (h : t.execute f = some t') :
+    t' = { t with savedCtx := ctxOf t } := by
+  rcases hf with rfl | rfl | rfl
+  · exact saveCursor_eq h
+  · exact saveCursor_eq h
+  · simp only [Terminal.execute] at h
+    exact saveCursor_eq (foldM_single h)
+
+/-- the save half of `?1049h`: the context of the screen that was showing is `ctxOf t` afterwards
+    (it is parked in `alternateSavedCtx` when the switch happens, clamped in place otherwise) -/
+theorem C17_save_1049 {t t' : Terminal} (h : t.execute (.decset [.saveCursorAltScreenBuffer]) = some t') :
+    (t'.savedCtx, t'.alternateSavedCtx)
+      = (if t.activeBufferType = .alternate
+         then (clampCtx t.cols t.rows (ctxOf t), t.alternateSavedCtx)
+         else (clampCtx t.cols t.rows t.alternateSavedCtx, ctxOf t)) := by
+  have := decset_single_ok (foldM_single (by simpa only [Terminal.execute] using h))
+  simpa [stepOK, modeCtx, showScreen] using this
+
+/-- **Clause 2.**  A restore sets column, row, pen, origin mode, auto-wrap mode from the active
+    context, clears the pending wrap and leaves both contexts as they are. -/
+theorem C17_restore_step {t t' : Terminal} {f : Function} (hf : IsPlainRestore f)
+    (h : t.execute f = some t') :
+    t'.cursor.col = t.savedCtx.cursorCol ∧ t'.cursor.row = t.savedCtx.cursorRow
+      ∧ t'.pen = t.savedCtx.pen ∧ t'.originMode = t.savedCtx.originMode
+      ∧ t'.autoWrapMode = t.savedCtx.autoWrapMode ∧ t'.pendingWrap = false
+      ∧ t'.savedCtx = t.savedCtx ∧ t'.alternateSavedCtx = t.alternateSavedCtx := by
+  have e : t' = t.restoreCursor := by
+    rcases hf with rfl | rfl | rfl
+    · simp only [Terminal.execute] at h; cases h; rfl
+    · simp only [Terminal.execute] at h; cases h; rfl
+    · simp only [Terminal.execute] at h
+      have := foldM_single h
+      simp only [Terminal.decrstOne] at this
+      cases this; rfl
+  subst e
+  simp [Terminal.restoreCursor]
+
+/-- **Restore after save.**  If the active context at restore time is still the one the save wrote
+    (clause 3 says when), the restore re-establishes column (clamped to the last real column), row,
+    pen, origin mode and auto-wrap mode of the save-time state `s`, and no wrap is pending. -/
+theorem C17_restore {s s1 t t' : Terminal} {f g : Function} (hf : IsPlainSave f) (hg : IsPlainRestore g)
+    (hs : s.execute f = some s1) (hkeep : t.savedCtx = s1.savedCtx) (h : t.execute g = some t') :
+    t'.cursor.col = min s.cursor.col (s.cols - 1) ∧ t'.cursor.row = s.cursor.row ∧ t'.pen = s.pen
+      ∧ t'.originMode = s.originMode ∧ t'.autoWrapMode = s.autoWrapMode ∧ t'.pendingWrap = false := by
+  have e := C17_save hf hs
+  have r := C17_restore_step hg h
+  rw [hkeep, e] at r
+  exact ⟨r.1, r.2.1, r.2.2.1, r.2.2.2.1, r.2.2.2.2.1, r.2.2.2.2.2.1⟩
+
+/-- **Clause 3 (frame), all ~50 constructors.**  A function that is not a save, a switch of screens,
+    DECSTR or RIS leaves both saved contexts unchanged — moves, prints, SGR, erases, scrolls, mode
+    changes, margin changes, tab operations, the restores themselves.  (`TInv` is needed only for
+    `xtwinops`, which is inert because the flag is never set.) -/
+theorem C17_frame {t t' : Terminal} {f : Function} (hi : TInv t = true) (h : t.execute f = some t')
+    (hf : touchesCtx f = false) :
+    t'.savedCtx = t.savedCtx ∧ t'.alternateSavedCtx = t.alternateSavedCtx := frame hi hf h
+
+/-- a run of functions through states that satisfy the invariant (C02) -/
+inductive Steps : Terminal → List Function → Terminal → Prop
+  | nil (t : Terminal) : Steps t [] t
+  | cons {t t1 t' : Terminal} {f : Function} {fs : List Function} :
+      TInv t = true → t.execute f = some t1 → Steps t1 fs t' → Steps t (f :: fs) t'
+
+/-- clause 3 over any history -/
+theorem C17_frame_many {t t' : Terminal} {fs : List Function} (h : Steps t fs t')
+    (hf : ∀ f ∈ fs, touchesCtx f = false) :
+    t'.savedCtx = t.savedCtx ∧ t'.alternateSavedCtx = t.alternateSavedCtx := by
+  induction h with
+  | nil t => exact ⟨rfl, rfl⟩
+  | cons hi he _ ih =>
+    have h1 := frame hi (hf _ (by simp)) he
+    have h2 := ih (fun f hm => hf f (by simp [hm]))
+    exact ⟨h2.1.trans h1.1, h2.2.trans h1.2⟩
+
+/-- **Round trip, regardless of what was executed in between** (moves, prints, SGR, mode and margin
+    changes, restores …; excursions to the other screen and resets are the subject of
+    `C17_separate`, `C17_default`, resizes of `C17_inside_after_resize`). -/
+theorem C17_roundtrip {s s1 t t' : Terminal} {f g : Function} {fs : List Function}
+    (hf : IsPlainSave f) (hg : IsPlainRestore g) (hs : s.execute f = some s1) (hmid : Steps s1 fs t)
+    (hfs : ∀ x ∈ fs, touchesCtx x = false) (h : t.execute g = some t') :
+    t'.cursor.col = min s.cursor.col (s.cols - 1) ∧ t'.cursor.row = s.cursor.row ∧ t'.pen = s.pen
+      ∧ t'.originMode = s.originMode ∧ t'.autoWrapMode = s.autoWrapMode ∧ t'.pendingWrap = false :=
+  C17_restore hf hg hs (C17_frame_many hmid hfs).1 h
+
+/-- the exceptions of clause 3: DECSTR resets the active context only, RIS resets both -/
+theorem C17_resets {t t' : Terminal} :
+    (t.execute .decstr = some t' → t'.savedCtx = defaultCtx ∧ t'.alternateSavedCtx = t.alternateSavedCtx)
+    ∧ (t.execute .ris = some t' → t'.savedCtx = defaultCtx ∧ t'.alternateSavedCtx = defaultCtx) := by
+  constructor
+  · intro h
+    simp only [Terminal.execute, Terminal.softReset] at h
+    obtain ⟨r1, _, rfl⟩ := Option.map_eq_some_iff.mp h
+    exact ⟨rfl, rfl⟩
+  · intro h
+    simp only [Terminal.execute, Terminal.hardReset] at h
+    obtain ⟨r1, _, rfl⟩ := Option.map_eq_some_iff.mp h
+    exact ⟨rfl, rfl⟩
+
+/-- **Defaults.**  On a fresh terminal both contexts are the power-on default; after DECSTR the active
+    one is; and a restore from the default context gives (0,0), default pen, origin off, auto-wrap on. -/
+theorem C17_default :
+    (∀ (cols rows : Nat) (lim : Option Nat) (t : Terminal), Terminal.new cols rows lim = some t →
+        t.savedCtx = defaultCtx ∧ t.alternateSavedCtx = defaultCtx)
+    ∧ (∀ t t' : Terminal, t.execute .decstr = some t' → t'.savedCtx = defaultCtx)
+    ∧ (∀ (t t' : Terminal) (g : Function), IsPlainRestore g → t.savedCtx = defaultCtx → t.execute g = some t' →
+        t'.cursor.col = 0 ∧ t'.cursor.row = 0 ∧ t'.pen = Pen.default ∧ t'.originMode = false
+          ∧ t'.autoWrapMode = true ∧ t'.pendingWrap = false) := by
+  refine ⟨?_, ?_, ?_⟩
+  · intro cols rows lim t h
+    unfold Terminal.new at h
+    obtain ⟨r1, _, rfl⟩ := Option.map_eq_some_iff.mp h
+    exact ⟨rfl, rfl⟩
+  · intro t t' h
+    exact (C17_resets.1 h).1
+  · intro t t' g hg hd h
+    have r := C17_restore_step hg h
+    rw [hd] at r
+    exact ⟨r.1, r.2.1, r.2.2.1, r.2.2.2.1, r.2.2.2.2.1, r.2.2.2.2.2.1⟩
+
+/-- **Separate contexts.**  An excursion to the other screen with a save there does not change this
+    screen's context: switch away, save, switch back — the context is what it was, and the other
+    screen's context is the one saved there.  (Both directions.) -/
+theorem C17_separate {t t1 t2 t3 : Terminal} :
+    (t.activeBufferType = .primary → t.switchToAlternateBuffer = some t1 → t1.saveCursor = some t2 →
+      t2.switchToPrimaryBuffer = some t3 →
+      t3.savedCtx = t.savedCtx ∧ t3.alternateSavedCtx = ctxOf t1)
+    ∧ (t.activeBufferType = .alternate → t.switchToPrimaryBuffer = some t1 → t1.saveCursor = some t2 →
+      t2.switchToAlternateBuffer = some t3 →
+      t3.savedCtx = t.savedCtx ∧ t3.alternateSavedCtx = ctxOf t1) := by
+  constructor
+  · intro hp h1 h2 h3
+    obtain ⟨d, rfl⟩ := switchAlt_primary hp h1
+    have e := saveCursor_eq h2
+    subst e
+    obtain ⟨d', rfl⟩ := switchPrim_alternate rfl h3
+    exact ⟨rfl, rfl⟩
+  · intro hp h1 h2 h3
+    obtain ⟨d, rfl⟩ := switchPrim_alternate hp h1
+    have e := saveCursor_eq h2
+    subst e
+    obtain ⟨d', rfl⟩ := switchAlt_primary rfl h3
+    exact ⟨rfl, rfl⟩
+
+/-- a save never writes the other screen's context (any spelling, including `?1049h` while the
+    alternate screen is showing) -/
+theorem C17_save_other {t t' : Terminal} {f : Function} (hf : IsPlainSave f) (h : t.execute f = some t') :
+    t'.alternateSavedCtx = t.alternateSavedCtx := by
+  rw [C17_save hf h]
+
+/-- **Resize.**  After `Terminal.reflow` (the tail of every resize and of every switch of screens)
+    the active context is the old one clamped into the screen, the other one is untouched, and the
+    position a restore would go to lies inside the screen.  The hypothesis that `reflow` succeeds
+    contains `Buffer.resize … = some …`; only the clamp matters here. -/
+theorem C17_inside_after_resize {t t' : Terminal} (hc : 1 ≤ t.cols) (hr : 1 ≤ t.rows)
+    (h : t.reflow = some t') :
+    t'.savedCtx = clampCtx t.cols t.rows t.savedCtx ∧ t'.alternateSavedCtx = t.alternateSavedCtx
+      ∧ t'.savedCtx.cursorCol < t'.cols ∧ t'.savedCtx.cursorRow < t'.rows
+      ∧ t'.restoreCursor.cursor.col < t'.cols ∧ t'.restoreCursor.cursor.row < t'.rows := by
+  have F := reflow_facts h
+  have h1 : t'.savedCtx.cursorCol < t'.cols := by
+    rw [F.saved, F.cols]; simp only [clampCtx]; omega
+  have h2 : t'.savedCtx.cursorRow < t'.rows := by
+    rw [F.saved, F.rows]; simp only [clampCtx]; omega
+  exact ⟨F.saved, F.alt, h1, h2, h1, h2⟩
+
+/-- the public resize: the clamp rule of the oracle (`resizeOK`) -/
+theorem C17_resize {t t' : Terminal} {cols rows : Nat} (hc : 1 ≤ cols) (hr : 1 ≤ rows)
+    (h : t.resize cols rows = some t') : resizeOK cols rows t t' = true := by
+  have := resize_ok h
+  simp only [resizeOK, this.1, this.2, beq_self_eq_true, Bool.true_and, ctxInside, clampCtx,
+    Bool.and_eq_true, decide_eq_true_eq]
+  omega
+
+/-! ### the hypotheses are satisfiable on a concrete non-trivial state
+
+  5x3 terminal, bold pen, cursor at (row 1, col 2): save, move and change the pen, go to the
+  alternate screen and save there, come back, restore. -/
+
+def exRun : Option (Terminal × Terminal × Terminal) := do
+  let t ← Terminal.new 5 3 none
+  let t ← t.execute (.sgr [.setBold, .setFg (.indexed 3)])
+  let s ← t.execute (.cup 2 3)
+  let s1 ← s.execute .decsc
+  let t ← s1.execute (.cup 1 1)
+  let t ← t.execute (.sgr [.reset])
+  let t ← t.execute (.decset [.altScreenBuffer])
+  let t ← t.execute .scosc
+  let t ← t.execute (.decrst [.altScreenBuffer])
+  let t' ← t.execute .decrc
+  pure (s, t, t')
+
+example : ∃ s t t', exRun = some (s, t, t') ∧ TInv s = true ∧ TInv t = true
+    ∧ t.savedCtx = ctxOf s ∧ t'.cursor.col = 2 ∧ t'.cursor.row = 1 ∧ t'.pen = s.pen
+    ∧ stepOK t .decrc t' = true := by
+  refine ⟨_, _, _, rfl, ?_⟩
+  decide
+
+example : IsPlainSave .scosc ∧ IsPlainRestore (.decrst [.saveCursor]) := ⟨Or.inr (Or.inl rfl), Or.inr (Or.inr rfl)⟩
+
+end Avt.Props.C17
